@@ -20,4 +20,14 @@ Definition sv_cond_undefined : bytes := hex "756e646566696e65642d636f6e646974696
 Definition sv_is_iq_locals : list bytes := [hex "6971"].
 Definition sv_is_iq_spaces : list bytes := [hex "6a61626265723a636c69656e74"; hex "6a61626265723a736572766572"].
 Definition sv_is_iq_empty_locals : list bytes := [hex "6971"].
-Definition sv_is_iq_empty_spaces : list bytes := [hex ""; hex "6a61626265723a636c69656e74"].
+Definition sv_is_iq_empty_spaces : list bytes := [hex ""; hex "6a61626265723a636c69656e74"; hex "6a61626265723a736572766572"].
+(* handleInputStream: `if <cond> { ... s.sentStanzas[id] ... }` — when the table of outstanding requests is consulted *)
+Definition sv_lookup_types : list bytes := [hex "726573756c74"; hex "6572726f72"].
+Definition sv_lookup_any_iq : bool := false.
+Definition sv_lookup_unrecognised : nat := 0.
+Definition sv_lookup_sites : nat := 1. (* if statements holding a sentStanzas lookup *)
+Definition sv_lookup_uses : nat := 1. (* mentions of sentStanzas in handleInputStream *)
+(* handleInputStream: iqNeedsResp := <cond> *)
+Definition sv_needs_resp_types : list bytes := [hex "676574"; hex "736574"].
+Definition sv_needs_resp_any_iq : bool := false.
+Definition sv_needs_resp_unrecognised : nat := 0.
